@@ -81,6 +81,16 @@ def strategy(tier):
     return st.one_of(clique_history(tier), counter_case(tier), counter_case(tier))
 
 
+GRID = [Fraction(a, b) for a, b in [(-1, 1), (-1, 2), (0, 1), (1, 4), (1, 3), (1, 2), (2, 3), (3, 4), (1, 1), (5, 4), (4, 3),
+                                      (3, 2), (2, 1), (3, 1)]]
+
+
+def is_poly_limitation(v):
+    """a Violation that only says 'the exact polynomial type could not be pushed through this code' (division by a
+    polynomial, negative power): not a verdict about the property -- fall back to exact rational evaluation."""
+    return ":TypeError@" in v.kind and ("Poly" in v.msg or "unsupported operand" in v.msg)
+
+
 def val(x):
     return Poly.var(x[1]) if x[0] == "v" else Poly.const(Fraction(x[1], x[2]))
 
@@ -116,10 +126,27 @@ def check(case):
         return {"nontrivial": tau >= 3, "classes": ["clique_table"]}
     if k == "cycle":
         n = case["n"]
-        got = call("chordless_cycle_equation", chordless_cycle_equation, n, Poly.var("u"), p)
         nodes = list(range(n))
         full = oracles.percolation_poly(nodes, [(i, (i + 1) % n) for i in range(n)], 0)
         want = compose(full, {f"u{i}": Poly.var("u") for i in range(n)})
+        try:
+            got = call("chordless_cycle_equation", chordless_cycle_equation, n, Poly.var("u"), p)
+        except Violation as v:
+            if not is_poly_limitation(v):
+                raise
+            # exact evaluation on a grid of rationals (reciprocal pairs and values outside [0,1] included)
+            for phi in GRID:
+                for u in GRID:
+                    try:
+                        g = chordless_cycle_equation(n, u, phi)
+                    except ZeroDivisionError:
+                        continue
+                    except Exception as e:
+                        raise Violation("cycle-grid-raises", f"chordless_cycle_equation({n}, {u}, {phi}) raised {type(e).__name__}: {e}")
+                    w = want.subs({"u": u, "p": phi})
+                    if Fraction(g) != w if isinstance(g, (int, Fraction)) else abs(float(g) - float(w)) > 1e-9 * max(1.0, abs(float(w))):
+                        raise Violation("cycle-identity-grid", f"chordless_cycle_equation(n={n}, u={u}, phi={phi}) = {g}, exact expectation {w}")
+            return {"nontrivial": True, "classes": ["cycle_table", "rational_grid_fallback"]}
         if got != want:
             d = got - want
             raise Violation("cycle-identity", f"chordless_cycle_equation(n={n}) differs from the exact expectation on C_{n}: {str(d)[:300]}")
